@@ -22,8 +22,15 @@ Proof.
   - intros a. unfold zseq. rewrite !map_length, seq_length. reflexivity.
 Qed.
 
+Lemma find_loc_bound : forall tbl i s j sref u, find_loc tbl i s = Some (j, sref, u) -> i <= j < i + zlen tbl.
+Proof.
+  induction tbl as [|[sr un] tbl IH]; intros i s j sref u H; simpl in H; [discriminate|].
+  unfold zlen in *. simpl length. destruct (is_prefix sr s).
+  - inversion H; subst. lia.
+  - apply IH in H. lia.
+Qed.
 Lemma decode_locs_spec : forall l tab, decode_locs l = Some tab ->
-  length tab = length l /\ Forall (fun p => 0 <= snd p) tab.
+  length tab = length l /\ Forall (fun p => fst p < 29 /\ 0 <= snd p) tab.
 Proof.
   induction l as [|w l IH]; intros tab H; simpl in H.
   - inversion H; subst. split; [reflexivity|constructor].
@@ -31,25 +38,80 @@ Proof.
     destruct (decode_locs l) as [t|] eqn:D; [|discriminate]. inversion H; subst.
     destruct (IH t eq_refl) as [I1 I2]. split; [simpl; congruence|]. constructor; [|assumption].
     simpl. unfold locator_identify in LI.
-    destruct (find_loc loc_table 0 (map tolower w)) as [[[i sref] uniq]|].
-    + destruct (uniq && (1 <? (if is_nil (skipn (length sref) (map tolower w)) then -1 else atoi (skipn (length sref) (map tolower w))))).
+    destruct (find_loc loc_table 0 (map tolower w)) as [[[i sref] uniq]|] eqn:FL.
+    + apply find_loc_bound in FL. unfold zlen in FL. simpl in FL.
+      destruct (uniq && (1 <? (if is_nil (skipn (length sref) (map tolower w)) then -1 else atoi (skipn (length sref) (map tolower w))))).
       * inversion LI.
       * inversion LI; subst. lia.
     + inversion LI; subst. lia.
 Qed.
 
+(* ------------------------------------------------------------------ the check of fixes/C09_5 implies the invariant *)
+Fixpoint decl_from (i : Z) (tab : list (Z * Z)) : list Z :=
+  match tab with
+  | [] => []
+  | (t, k) :: r => if 0 <=? t then i :: decl_from (i + 1) r else decl_from (i + 1) r
+  end.
+Lemma decl_from_len : forall tab i, zlen (decl_from i tab) = declared tab.
+Proof.
+  unfold declared, zlen. intros tab i. f_equal. revert i.
+  induction tab as [|[t k] r IH]; intros i; simpl; [reflexivity|].
+  destruct (0 <=? t); simpl; rewrite (IH (i + 1)); reflexivity.
+Qed.
+Lemma decl_from_range : forall tab i u, In u (decl_from i tab) -> i <= u < i + zlen tab.
+Proof.
+  unfold zlen. induction tab as [|[t k] r IH]; intros i u H; simpl in H; [contradiction|]. simpl length.
+  destruct (0 <=? t); [destruct H as [H|H]; [lia|]|]; apply IH in H; lia.
+Qed.
+Lemma decl_from_NoDup : forall tab i, NoDup (decl_from i tab).
+Proof.
+  induction tab as [|[t k] r IH]; intros i; simpl; [constructor|].
+  destruct (0 <=? t); [|apply IH]. constructor; [|apply IH]. intro H. apply decl_from_range in H. lia.
+Qed.
+Lemma in_concat_nth : forall (ls : list (list Z)) k u, In u (nth k ls []) -> In u (concat ls).
+Proof.
+  induction ls as [|l ls IH]; intros [|k] u H; simpl in *; try contradiction.
+  - apply in_or_app. left. assumption.
+  - apply in_or_app. right. eapply IH. eassumption.
+Qed.
+Lemma nth_not_default_In : forall (l : list Z) k d, nth k l d <> d -> In (nth k l d) l.
+Proof. intros l k d H. destruct (le_lt_dec (length l) k); [rewrite nth_overflow in H by assumption; congruence|apply nth_In; assumption]. Qed.
+Lemma post_cols_incl : forall tab locs i, 0 <= i -> post_cols locs i tab = true -> incl (decl_from i tab) (concat locs).
+Proof.
+  induction tab as [|[t k] r IH]; intros locs i Hi H; simpl in *; [intros x Hx; contradiction|].
+  apply andb_true_iff in H. destruct H as [H1 H2]. specialize (IH locs (i + 1) ltac:(lia) H2).
+  destruct (0 <=? t) eqn:CT; [|exact IH].
+  apply Z.leb_le in CT. replace (t <? 0) with false in H1 by (symmetry; apply Z.ltb_ge; lia). simpl in H1.
+  apply Z.eqb_eq in H1. intros x [Hx|Hx]; [|apply IH; assumption]. subst x.
+  rewrite znth_nth in H1 by assumption. unfold znth in H1.
+  destruct (k <? 0); [lia|].
+  eapply in_concat_nth. rewrite <- H1 at 1. apply nth_not_default_In. lia.
+Qed.
+Lemma post_ok_wf : forall tab locs ncol, post_ok tab locs = true -> zlen tab = ncol ->
+  NoDup (concat locs) /\ Forall (fun u => 0 <= u < ncol) (concat locs).
+Proof.
+  intros tab locs ncol H HT. unfold post_ok in H. apply andb_true_iff in H. destruct H as [H1 H2].
+  apply Z.eqb_eq in H2. pose proof (post_cols_incl _ _ 0 ltac:(lia) H1) as HI.
+  pose proof (decl_from_NoDup tab 0) as ND. pose proof (decl_from_len tab 0) as DL.
+  assert (HLen : (length (concat locs) <= length (decl_from 0 tab))%nat) by (unfold zlen in *; lia).
+  split.
+  - eapply NoDup_incl_NoDup; eassumption.
+  - pose proof (NoDup_length_incl ND HLen HI) as HI2. apply Forall_forall. intros u Hu.
+    apply HI2 in Hu. apply decl_from_range in Hu. lia.
+Qed.
+
 Section Fixed.
 Variable E : env.
 Variable flen : Z.
-Hypothesis Hcfg : e_cfg E = cfg_fixed.
+Hypothesis Hcfg : cfg_ge_now (e_cfg E).
 Hypothesis Hflen : 0 <= flen < 2147483648.
 Hypothesis Hfuel : flen < Z.of_nat (e_fuel E).
 Hypothesis Hcap : alloc_bound flen <= e_cap E.
 
-Let HFS : fix_store (e_cfg E) = true. Proof. rewrite Hcfg; reflexivity. Qed.
-Let HFC : fix_counts (e_cfg E) = true. Proof. rewrite Hcfg; reflexivity. Qed.
-Let HFL : fix_loc (e_cfg E) = true. Proof. rewrite Hcfg; reflexivity. Qed.
-Let HFG : fix_grid (e_cfg E) = true. Proof. rewrite Hcfg; reflexivity. Qed.
+Let HFS : fix_store (e_cfg E) = true. Proof. destruct Hcfg as [H1 [H2 [H3 H4]]]; assumption. Qed.
+Let HFC : fix_counts (e_cfg E) = true. Proof. destruct Hcfg as [H1 [H2 [H3 H4]]]; assumption. Qed.
+Let HFL : fix_locfail (e_cfg E) = true. Proof. destruct Hcfg as [H1 [H2 [H3 H4]]]; assumption. Qed.
+Let HFG : fix_grid (e_cfg E) = true. Proof. destruct Hcfg as [H1 [H2 [H3 H4]]]; assumption. Qed.
 
 Lemma rows_loop_spec : forall fuel nech ncol iech acc m,
   0 <= ncol -> 0 <= iech <= nech -> nech - iech < Z.of_nat fuel ->
@@ -73,29 +135,40 @@ Proof.
 Qed.
 
 Lemma apply_cols_spec : forall ncol names tab i cur locs m,
-  0 <= i -> i + zlen names <= ncol -> length tab = length names -> Forall (fun p => 0 <= snd p) tab ->
-  zlen cur = ncol -> (ncol + 1) * 4 <= e_cap E -> LI i locs ->
+  0 <= i -> i + zlen names <= ncol -> length tab = length names -> Forall (fun p => fst p < 29 /\ 0 <= snd p) tab ->
+  zlen cur = ncol -> length locs = 29%nat -> Forall (fun u => 0 <= u < i) (concat locs) ->
   match apply_cols E ncol i names tab cur locs m with
-  | Ret nl m' => ms m' = ms m /\ galloc m <= galloc m' <= galloc m + 4 * zlen names /\
-                 zlen (fst nl) = ncol /\ LI (i + zlen names) (snd nl)
-  | Bad _ => False
+  | Ret nl m' => ms m' = ms m /\ zlen (fst nl) = ncol /\ length (snd nl) = 29%nat /\
+                 Forall (fun u => 0 <= u < i + zlen names) (concat (snd nl)) /\
+                 galloc m' = galloc m + 4 * (zlen (concat (snd nl)) - zlen (concat locs)) /\
+                 zlen (concat locs) <= zlen (concat (snd nl)) /\
+                 (forall b, Forall (fun l => zlen l <= b) locs -> Forall (fun p => snd p < b) tab ->
+                            Forall (fun l => zlen l <= b) (snd nl))
+  | Bad b => is_throw16 b = true /\ ~ Forall (fun p => (snd p + 1) * 4 <= e_cap E) tab
   end.
 Proof.
-  intros ncol. induction names as [|nm names IH]; intros tab i cur locs m Hi Hn Hl Ht Hc Hcp HL; cbn [apply_cols].
-  - unfold zlen; simpl. destruct tab; (split; [reflexivity|split; [lia|split; [assumption|]]]); replace (i + 0) with i by lia; assumption.
+  intros ncol. induction names as [|nm names IH]; intros tab i cur locs m Hi Hn Hl Ht Hc HL F; cbn [apply_cols].
+  - replace (i + zlen (@nil (list Z))) with i by (unfold zlen; simpl; lia).
+    destruct tab; cbn [fst snd]; (split; [reflexivity|split; [assumption|split; [assumption|split; [assumption|split; [lia|split; [lia|]]]]]]); intros; assumption.
   - destruct tab as [|[typ idx] tab]; [simpl in Hl; discriminate|].
     unfold zlen in Hn; simpl length in Hn.
     destruct (set_name_total cur (Z.to_nat i) nm) as [cur' [HS1 HS2]]; [unfold zlen in Hc; lia|].
-    rewrite HS1. apply Forall_cons_iff in Ht. destruct Ht as [H1 H2]. simpl in H1.
-    pose proof (set_locator_fixed E ncol locs i typ idx m HFL ltac:(lia) H1 Hcp HL) as HSL.
-    destruct (set_locator E ncol locs i typ idx m) as [locs' m1|b]; cbn [bind]; [|contradiction].
-    destruct HSL as [S1 [S2 S3]].
-    specialize (IH tab (i + 1) cur' locs' m1 ltac:(lia) ltac:(unfold zlen; lia) ltac:(simpl in Hl; lia) H2
-                   ltac:(unfold zlen in *; lia) Hcp S3).
-    destruct (apply_cols E ncol (i + 1) names tab cur' locs' m1) as [nl m'|b]; [|contradiction].
-    destruct IH as [I1 [I2 [I3 I4]]]. unfold zlen in *. simpl length.
-    split; [congruence|split; [lia|split; [assumption|]]].
-    replace (i + Z.of_nat (S (length names))) with (i + 1 + Z.of_nat (length names)) by lia. assumption.
+    rewrite HS1. apply Forall_cons_iff in Ht. destruct Ht as [[H0 H1] H2]. simpl in H0, H1.
+    pose proof (set_locator_spec E ncol locs i typ idx m ltac:(lia) H1 H0 HL F) as HSL.
+    destruct (set_locator E ncol locs i typ idx m) as [locs' m1|b]; cbn [bind].
+    + destruct HSL as [S1 [S2 [S3 [S4 [S5 S6]]]]].
+      specialize (IH tab (i + 1) cur' locs' m1 ltac:(lia) ltac:(unfold zlen; lia) ltac:(simpl in Hl; lia) H2
+                     ltac:(unfold zlen in *; lia) S2 S3).
+      destruct (apply_cols E ncol (i + 1) names tab cur' locs' m1) as [nl m'|b].
+      * destruct IH as [I1 [I2 [I3 [I4 [I5 [I6 I7]]]]]]. unfold zlen in *. simpl length.
+        split; [congruence|split; [assumption|split; [assumption|split; [|split; [lia|split; [lia|]]]]]].
+        -- replace (i + Z.of_nat (S (length names))) with (i + 1 + Z.of_nat (length names)) by lia. assumption.
+        -- intros b Hb Hr. apply Forall_cons_iff in Hr. destruct Hr as [Hr1 Hr2]. simpl in Hr1.
+           apply I7; [apply S6; assumption|assumption].
+      * destruct IH as [IH1 IH2]. split; [assumption|].
+        intro HF. apply IH2. apply Forall_cons_iff in HF. destruct HF; assumption.
+    + destruct HSL as [HB1 HB2]. split; [assumption|].
+      intro HF. apply Forall_cons_iff in HF. destruct HF as [HF _]. simpl in HF. lia.
 Qed.
 
 (* the guard [gt]: for a DbGrid, the 32-bit grid size is the wrap of the exact product *)
@@ -104,16 +177,26 @@ Definition gt_ok (gt : option (Z * Z)) : Prop :=
 Definition wf_db_gt (gt : option (Z * Z)) (d : db) : Prop :=
   wf_db d /\ match gt with Some (_, ex) => d_nech d = ex | None => True end.
 
-Theorem db_fixed : forall gt m, gt_ok gt -> len m <= flen ->
-  rspec (128 * flen) (wf_db_gt gt) m (db_deserialize E gt m).
+(* the code as it is now (fix_rank = false) may still use a locator rank as a size (Throw 1 16) and return role lists with
+   fillers; with fixes/C09_5 (fix_rank = true) allocation is bounded and the object is well formed *)
+Definition dspec (gt : option (Z * Z)) (m : mon) (r : res (option db)) : Prop :=
+  match r with
+  | Ret o m' => len m' <= len m /\ galloc m <= galloc m' /\
+                (fix_rank (e_cfg E) = true -> galloc m' <= galloc m + 240 * flen) /\
+                match o with Some d => fix_rank (e_cfg E) = true -> wf_db_gt gt d | None => True end
+  | Bad b => is_throw16 b = true /\ fix_rank (e_cfg E) = false
+  end.
+Ltac early := split; [lia|split; [lia|split; [intros _; lia|exact I]]].
+
+Theorem db_spec : forall gt m, gt_ok gt -> len m <= flen -> dspec gt m (db_deserialize E gt m).
 Proof.
-  intros gt m Hgt Hm. unfold db_deserialize, rspec. unfold alloc_bound in Hcap.
+  intros gt m Hgt Hm. unfold db_deserialize, dspec. unfold alloc_bound in Hcap.
   assert (Hlm : 0 <= len m) by (unfold len; lia).
   pose proof (read_int_reads m) as R1. destruct (read_int m) as [oncol m1|b]; cbn [bind reads] in *; [|contradiction].
-  destruct R1 as [L1 G1]. destruct oncol as [ncol|]; [|split; [lia|split; [lia|exact I]]].
+  destruct R1 as [L1 G1]. destruct oncol as [ncol|]; [|early].
   pose proof (read_int_reads m1) as R2. destruct (read_int m1) as [onech m2|b]; cbn [bind reads] in *; [|contradiction].
-  destruct R2 as [L2 G2]. destruct onech as [nech|]; [|split; [lia|split; [lia|exact I]]].
-  destruct (db_counts_ok E ncol nech m2) eqn:CK; cbn [negb]; [|split; [lia|split; [lia|exact I]]].
+  destruct R2 as [L2 G2]. destruct onech as [nech|]; [|early].
+  destruct (db_counts_ok E ncol nech m2) eqn:CK; cbn [negb]; [|early].
   unfold db_counts_ok in CK. apply andb_true_iff in CK. destruct CK as [CK C3]. apply andb_true_iff in CK. destruct CK as [C1 C2].
   apply count_ok_fixed in C1; [|assumption]. apply count_ok_fixed in C2; [|assumption]. apply count_ok_fixed in C3; [|assumption].
   (* locators *)
@@ -153,17 +236,23 @@ Proof.
   rewrite alloc_ok by lia. cbn [bind].
   set (m5 := mkM (ms m4) (galloc m4 + nech * ncol * 8)).
   assert (L5 : len m5 = len m4) by reflexivity. assert (G5 : galloc m5 = galloc m4 + nech * ncol * 8) by reflexivity.
-  destruct olocs as [locs|]; [|split; [lia|split; [lia|exact I]]].
-  destruct onames as [names|]; [|split; [lia|split; [lia|exact I]]].
+  destruct olocs as [locs|]; [|early].
+  destruct onames as [names|]; [|early].
   pose proof (rows_loop_spec (e_fuel E) nech ncol 0 [] m5 ltac:(lia) ltac:(lia) ltac:(lia)) as HR.
   replace (0 * ncol) with 0 in HR by ring.
   destruct (rows_loop E (e_fuel E) nech ncol (nech * ncol) 0 0 [] m5) as [orows m6|b]; cbn [bind]; [|contradiction].
   destruct HR as [L6 G6].
-  destruct orows as [ws|]; [|split; [lia|split; [lia|exact I]]].
-  destruct (decode_locs locs) as [tab|] eqn:DL; [|rewrite HFL; split; [lia|split; [lia|exact I]]].
+  destruct orows as [ws|]; [|early].
+  destruct (decode_locs locs) as [tab|] eqn:DL; [|rewrite HFL; early].
+  destruct (decode_locs_spec _ _ DL) as [DT1 DT2].
+  destruct (fix_rank (e_cfg E) && existsb (fun p => ncol <=? snd p) tab) eqn:CR; [early|].
+  assert (HRK : fix_rank (e_cfg E) = true -> Forall (fun p => snd p < ncol) tab).
+  { intros HR. rewrite HR in CR. simpl in CR. apply Forall_forall. intros p Hp.
+    destruct (ncol <=? snd p) eqn:Cp; [|apply Z.leb_gt in Cp; assumption].
+    exfalso. assert (existsb (fun p => ncol <=? snd p) tab = true) by (apply existsb_exists; exists p; split; assumption). congruence. }
   rewrite HFG. cbn [andb].
   destruct (match gt with Some (_, exact) => negb (nech =? exact) | None => false end) eqn:CG;
-    [split; [lia|split; [lia|exact I]]|].
+    [early|].
   (* nech' = nech *)
   assert (HN' : (match gt with Some (n32, _) => n32 | None => nech end) = nech).
   { destruct gt as [[n32 ex]|]; [|reflexivity]. apply negb_false_iff in CG. apply Z.eqb_eq in CG. subst ex.
@@ -181,24 +270,37 @@ Proof.
     by (symmetry; apply andb_false_iff; right; apply Z.ltb_ge; lia).
   replace ((0 <? ncol) && (0 <? nech * ncol) && (0 <? nech) && negb (nech * ncol =? nech * ncol)) with false
     by (symmetry; rewrite Z.eqb_refl; simpl; apply andb_false_r).
-  destruct (decode_locs_spec _ _ DL) as [DT1 DT2].
+  assert (NL29 : length no_loc = 29%nat) by reflexivity.
+  assert (NLF : Forall (fun u => 0 <= u < 0) (concat no_loc)) by (simpl; constructor).
+  assert (NLB : Forall (fun l => zlen l <= ncol) no_loc).
+  { unfold no_loc. apply Forall_forall. intros l Hl. apply repeat_spec in Hl. subst l. unfold zlen; simpl. lia. }
   pose proof (apply_cols_spec ncol names tab 0 (map new_name (map (Z.add 1) (zseq ncol))) no_loc m8
                 ltac:(lia) ltac:(lia) ltac:(unfold zlen in *; lia) DT2
                 ltac:(unfold zlen; rewrite !map_length; pose proof (zseq_length ncol); unfold zlen in *; lia)
-                ltac:(lia) LI_init) as HAC.
-  destruct (apply_cols E ncol 0 names tab (map new_name (map (Z.add 1) (zseq ncol))) no_loc m8) as [nl m9|b]; cbn [bind]; [|contradiction].
-  destruct HAC as [A1 [A2 [A3 A4]]].
+                NL29 NLF) as HAC.
+  destruct (apply_cols E ncol 0 names tab (map new_name (map (Z.add 1) (zseq ncol))) no_loc m8) as [nl m9|b]; cbn [bind].
+  2:{ destruct HAC as [HB1 HB2]. split; [assumption|].
+      destruct (fix_rank (e_cfg E)) eqn:RK; [|reflexivity]. exfalso. apply HB2.
+      specialize (HRK eq_refl). eapply Forall_impl; [|exact HRK]. simpl. intros p Hp. lia. }
+  destruct HAC as [A1 [A2 [A3 [A4 [A5 [A6 A7]]]]]].
   assert (len m9 = len m6) by (unfold len; rewrite A1, S8; reflexivity).
-  split; [lia|split; [rewrite W4 in A2; lia|]].
-  unfold wf_db_gt, wf_db. cbn [d_ncol d_nech d_names d_uidcol d_loc d_array].
-  destruct A4 as [B1 [B2 B3]]. replace (0 + zlen names) with ncol in B3 by lia.
-  split.
-  - split; [lia|split; [lia|split; [assumption|split; [reflexivity|split; [|split; [assumption|split; assumption]]]]]].
-    destruct ((0 <? ncol) && (0 <? nech * ncol) && (0 <? nech)) eqn:CA.
-    + apply load_data_length; lia.
-    + destruct (0 <? nech * ncol) eqn:CP.
-      * unfold zlen. rewrite repeat_length. apply Z.ltb_lt in CP. lia.
-      * apply Z.ltb_ge in CP. unfold zlen; simpl. nia.
-  - destruct gt as [[n32 ex]|]; [|exact I]. apply negb_false_iff in CG. apply Z.eqb_eq in CG. congruence.
+  assert (ZC : zlen (concat no_loc) = 0) by reflexivity.
+  assert (GB : fix_rank (e_cfg E) = true -> galloc m9 <= galloc m8 + 116 * ncol).
+  { intros HR. specialize (A7 ncol NLB (HRK HR)). pose proof (concat_length_bound _ ncol ltac:(lia) A7) as HB.
+    rewrite A3 in HB. lia. }
+  destruct (fix_rank (e_cfg E) && negb (post_ok tab (snd nl))) eqn:CP.
+  - split; [lia|split; [lia|split; [|exact I]]]. intros HR. specialize (GB HR). rewrite W4 in *. lia.
+  - split; [lia|split; [lia|split; [intros HR; specialize (GB HR); rewrite W4 in *; lia|]]].
+    intros HR. rewrite HR in CP. simpl in CP. apply negb_false_iff in CP.
+    destruct (post_ok_wf tab (snd nl) ncol CP ltac:(unfold zlen in *; lia)) as [PW1 PW2].
+    unfold wf_db_gt, wf_db. cbn [d_ncol d_nech d_names d_uidcol d_loc d_array].
+    split.
+    + split; [lia|split; [lia|split; [assumption|split; [reflexivity|split; [|split; [assumption|split; assumption]]]]]].
+      destruct ((0 <? ncol) && (0 <? nech * ncol) && (0 <? nech)) eqn:CA.
+      * apply load_data_length; lia.
+      * destruct (0 <? nech * ncol) eqn:CPP.
+        -- unfold zlen. rewrite repeat_length. apply Z.ltb_lt in CPP. lia.
+        -- apply Z.ltb_ge in CPP. unfold zlen; simpl. nia.
+    + destruct gt as [[n32 ex]|]; [|exact I]. apply negb_false_iff in CG. apply Z.eqb_eq in CG. congruence.
 Qed.
 End Fixed.
